@@ -197,12 +197,19 @@ pub struct LabParser {
     end_gates: usize,
     cur: Option<Gate>,
     delivered: Arc<AtomicU64>,
+    /// `Ready(None)` has been returned. A `Stream` may do anything when polled after its end; this
+    /// one is strict: it records the poll and blocks forever (never wakes its task).
+    ended: bool,
 }
 
 impl Stream for LabParser {
     type Item = parser::Result<gherkin::Feature>;
 
     fn poll_next(mut self: Pin<&mut Self>, cx: &mut Context<'_>) -> Poll<Option<Self::Item>> {
+        if self.ended {
+            with_lab(|l| l.parser_polled_after_end += 1);
+            return Poll::Pending;
+        }
         loop {
             let (gates_left, label) = match self.items.front() {
                 Some((g, _, i)) => (*g, format!("parser:item{i}")),
@@ -224,6 +231,9 @@ impl Stream for LabParser {
                     }
                 }
                 continue;
+            }
+            if self.items.is_empty() {
+                self.ended = true;
             }
             return Poll::Ready(self.items.pop_front().map(|(_, item, _)| {
                 self.delivered.fetch_add(1, Ordering::SeqCst);
@@ -318,6 +328,8 @@ pub struct RunLog {
     /// First quiescent point at which a gate released earlier had still not been passed: the
     /// future waiting on it was woken but the runner went quiet without polling it.
     pub unresumed: Option<Unresumed>,
+    /// Polls of the parser stream after it had returned `None`.
+    pub parser_polled_after_end: u64,
 }
 
 #[derive(Clone, Debug)]
@@ -462,6 +474,7 @@ pub fn prepare(case: &RCase) -> (LabParser, Arc<AtomicU64>) {
         end_gates: if case.lazy { case.end_gates } else { 0 },
         cur: None,
         delivered: Arc::clone(&delivered),
+        ended: false,
     };
     (parser, delivered)
 }
@@ -600,18 +613,33 @@ pub fn run_with(case: &RCase, sched: &mut Schedule<'_>, poll: &mut dyn FnMut(&mu
                     if busy { " (it keeps waking itself without making progress)" } else { " and no wake-up requested" }
                 ));
             }
+            // A retry waiting out its delay (1..5 ms) is woken by the runner's timer thread: wait for
+            // it generously. With no delayed retry outstanding nothing can wake the runner any more;
+            // half a second without progress is then reported as a stall, not as a slow timer.
             let t0 = *wait_started.get_or_insert_with(Instant::now);
-            if t0.elapsed() > Duration::from_secs(5) {
-                break 'outer RunEnd::TimerTimeout;
+            let limit = if delayed_outstanding.is_empty() { Duration::from_millis(500) } else { Duration::from_secs(5) };
+            let give_up = |events: &Vec<REv>| {
+                if delayed_outstanding.is_empty() {
+                    RunEnd::Stalled(format!(
+                        "stream returned Pending with no gate pending and no retry waiting for its delay{}; {} events so far",
+                        if busy { " (it keeps waking itself without making progress)" } else { " and no wake-up requested" },
+                        events.len()
+                    ))
+                } else {
+                    RunEnd::TimerTimeout
+                }
+            };
+            if t0.elapsed() > limit {
+                break 'outer give_up(&events);
             }
             if busy {
                 thread::sleep(Duration::from_micros(200));
             } else {
-                let dl = t0 + Duration::from_secs(5);
+                let dl = t0 + limit;
                 while !flag.0.load(Ordering::SeqCst) {
                     let now = Instant::now();
                     if now >= dl {
-                        break 'outer RunEnd::TimerTimeout;
+                        break 'outer give_up(&events);
                     }
                     thread::park_timeout(dl - now);
                 }
@@ -687,5 +715,6 @@ pub fn run_with(case: &RCase, sched: &mut Schedule<'_>, poll: &mut dyn FnMut(&mu
         post_end_polls_ok,
         max_delayed_outstanding,
         unresumed,
+        parser_polled_after_end: with_lab(|l| l.parser_polled_after_end),
     }
 }
